@@ -139,6 +139,8 @@ pub struct FbGate {
     wakers: Mutex<Vec<std::task::Waker>>,
     /// request ids the fallback function was invoked with
     pub invoked: Mutex<Vec<u32>>,
+    /// every announced transition to Open: (virtual ms, number of inner calls started before it)
+    pub open_marks: Mutex<Vec<(u64, usize)>>,
 }
 
 impl FbGate {
@@ -223,9 +225,11 @@ fn wait_of(cfg: &CbCfg) -> Duration {
 }
 
 /// Every setting except the classifier, on a builder of any classifier type.
-fn settings<C>(mut b: tower_resilience_circuitbreaker::CircuitBreakerConfigBuilder<C>, cfg: &CbCfg, inner: &Shared, origin: tokio::time::Instant, log: &TransitionLog, nest: &Option<Arc<trv_core::nest::Nest>>) -> tower_resilience_circuitbreaker::CircuitBreakerConfigBuilder<C> {
+fn settings<C>(mut b: tower_resilience_circuitbreaker::CircuitBreakerConfigBuilder<C>, cfg: &CbCfg, inner: &Shared, origin: tokio::time::Instant, log: &TransitionLog, nest: &Option<Arc<trv_core::nest::Nest>>, gate: &Arc<FbGate>) -> tower_resilience_circuitbreaker::CircuitBreakerConfigBuilder<C> {
     let l2 = log.clone();
     let inner_for_step = inner.clone();
+    let marks = gate.clone();
+    let nest_t = nest.clone();
     b = b
         .failure_rate_threshold(cfg.threshold)
         .sliding_window_size(cfg.window_size)
@@ -233,8 +237,19 @@ fn settings<C>(mut b: tower_resilience_circuitbreaker::CircuitBreakerConfigBuild
         .permitted_calls_in_half_open(cfg.permitted)
         .on_state_transition(move |from, to| {
             let now = tokio::time::Instant::now().saturating_duration_since(origin).as_millis() as u64;
-            let step = inner_for_step.lock().unwrap().step;
+            let (step, calls) = {
+                let g = inner_for_step.lock().unwrap();
+                (g.step, g.calls.len())
+            };
             l2.lock().unwrap().push((now, step, from, to));
+            if to == CircuitState::Open {
+                marks.open_marks.lock().unwrap().push((now, calls));
+            }
+            // the transition is announced from inside the critical section, before the new
+            // state is stored: a caller polled from here sees what another thread would see
+            if let Some(n) = &nest_t {
+                n.hook();
+            }
         });
     if let Some(n) = nest {
         let (n1, n2, n3, n4) = (n.clone(), n.clone(), n.clone(), n.clone());
@@ -248,6 +263,9 @@ fn settings<C>(mut b: tower_resilience_circuitbreaker::CircuitBreakerConfigBuild
     }
     if let Some(s) = cfg.slow_ms {
         b = b.slow_call_duration_threshold(Duration::from_millis(s)).slow_call_rate_threshold(cfg.slow_rate);
+    } else if cfg.slow_rate != 1.0 {
+        // a slow-call rate threshold without slow-call detection: must have no effect
+        b = b.slow_call_rate_threshold(cfg.slow_rate);
     }
     b
 }
@@ -256,6 +274,7 @@ pub fn build_full(cfg: &CbCfg, inner: Shared, origin: tokio::time::Instant, nest
     let log: TransitionLog = Arc::new(Mutex::new(vec![]));
     let gi = GatedInner::new(inner.clone());
     let gate: Arc<FbGate> = Arc::new(FbGate::default());
+    let gate_s = gate.clone();
     let g2 = gate.clone();
     let gated = cfg.fallback_gated;
     let fb = move |req: Req| -> BoxFuture<'static, Result<Resp, InnerErr>> {
@@ -267,9 +286,9 @@ pub fn build_full(cfg: &CbCfg, inner: Shared, origin: tokio::time::Instant, nest
     }
     let h: Box<dyn Cb> = if cfg.custom_classifier {
         let layer = if cfg.classifier_first {
-            settings(CircuitBreakerLayer::builder().failure_classifier(classify), cfg, &inner, origin, &log, &nest).build()
+            settings(CircuitBreakerLayer::builder().failure_classifier(classify), cfg, &inner, origin, &log, &nest, &gate_s).build()
         } else {
-            settings(CircuitBreakerLayer::builder(), cfg, &inner, origin, &log, &nest).failure_classifier(classify).build()
+            settings(CircuitBreakerLayer::builder(), cfg, &inner, origin, &log, &nest, &gate_s).failure_classifier(classify).build()
         };
         let svc = layer.layer_fn(gi);
         if cfg.fallback {
@@ -278,7 +297,7 @@ pub fn build_full(cfg: &CbCfg, inner: Shared, origin: tokio::time::Instant, nest
             Box::new(svc)
         }
     } else {
-        let layer = settings(CircuitBreakerLayer::builder(), cfg, &inner, origin, &log, &nest).build();
+        let layer = settings(CircuitBreakerLayer::builder(), cfg, &inner, origin, &log, &nest, &gate_s).build();
         let svc = layer.layer_fn(gi);
         if cfg.fallback {
             Box::new(svc.with_fallback(fb))
